@@ -39,11 +39,11 @@ var yuletreeCmd = &cobra.Command{
 	Use:   "yuletree",
 	Short: "Generates a random yule binary tree",
 	Long:  `Generates a random yule binary tree.`,
-	Run: func(cmd *cobra.Command, args []string) {
-		if err := yuleTree(generateNbTrees, generateNbTips, generateOutputfile, generateRooted); err != nil {
+	RunE: func(cmd *cobra.Command, args []string) (err error) {
+		if err = yuleTree(generateNbTrees, generateNbTips, generateOutputfile, generateRooted); err != nil {
 			io.LogError(err)
-			return
 		}
+		return
 	},
 }
 
